@@ -97,6 +97,12 @@ Inductive fault :=
 | FCancel (recv_side at_start : bool)  (* the caller's context of Send / Receive is cancelled *)
 | FCancelStream (at_start : bool)      (* the stream's own context is cancelled: both endpoints fail *)
 | FCancelAll (at_start : bool)         (* one context shared by Send, Receive and the stream is cancelled *)
+| FVanish (sender at_start : bool)     (* one side is gone (process killed / connection dropped): its context is
+                                          cancelled and its endpoint fails; the survivor sees a clean end of stream.
+                                          An EOF on the s->r direction is LEnvCloseSend (after the dead Send has
+                                          returned); the LTS has no EOF value for the r->s direction: RecvMsg of the
+                                          request loop ending in io.EOF is a failed RecvMsg, i.e. a break of the
+                                          sender's endpoint as well (tear-down) *)
 | FWalkErr (k : nat)                   (* FS.Walk fails when it reaches entry k *)
 | FReadErr (h c : nat)                 (* Read of file h fails after c chunks *)
 | FOpenErr (h : nat)                   (* Open of file h fails *)
@@ -212,6 +218,8 @@ Definition env_fault_labels (f : fault) (at_start : bool) : list label :=
   | FCancel true a => if Bool.eqb a at_start then [LEnvCancelR] else []
   | FCancelStream a => if Bool.eqb a at_start then [LEnvTearDown] else []
   | FCancelAll a => if Bool.eqb a at_start then [LEnvCancelS; LEnvCancelR; LEnvTearDown] else []
+  | FVanish true a => if Bool.eqb a at_start then [LEnvCancelS; LEnvBreakS] else []
+  | FVanish false a => if Bool.eqb a at_start then [LEnvCancelR; LEnvTearDown] else []
   | _ => []
   end.
 
@@ -254,9 +262,19 @@ Definition is_fault_label (l : label) : bool :=
   | _ => false
   end.
 
+(* a stalled callback was entered before anything that is postponed to the same moment: the
+   context check in front of it (DiskWriter.HandleChange) has already passed *)
+Definition step_sc (sc : scenario) (p : params) (st : state) (l : label) : option state :=
+  if sc_hold sc && is_stalled sc p st l
+  then match step p (set_r_cancel false (set_dw_cancel false st)) l with
+       | Some s => Some (set_r_cancel (r_cancel st) (set_dw_cancel (dw_cancel st) s))
+       | None => None
+       end
+  else step p st l.
+
 Definition succs (sc : scenario) (p : params) (st : state) : list (label * state) :=
   let ss0 := flat_map (fun l => if allowed0 sc p st l
-                                then match step p st l with Some s => [(l, s)] | None => [] end
+                                then match step_sc sc p st l with Some s => [(l, s)] | None => [] end
                                 else []) (all_labels st) in
   (* the postponed cancellation / endpoint failure, while it can still happen *)
   let els := env_fault_labels (sc_fault sc) false in
